@@ -143,3 +143,20 @@ Executor.drop_hooks['mutexguard'] = _drop_guard
 @model(r'^anymap2::(?:any::)?(?:Any)?Map(?:::<.*>)?::new$')
 def anymap_new(ctx, args, st):
     return ret(st, Opaque(('AnyMap',)))
+
+
+@model(r'^(?:std::boxed::|alloc::boxed::)?Box::<.*>::new_uninit$')
+def box_new_uninit(ctx, args, st):
+    return ret(st, st.ref(UNINIT, True))
+
+
+@model(r'^(?:std|alloc)::boxed::box_assume_init_into_vec_unsafe::<')
+def box_into_vec(ctx, args, st):
+    """tail of the vec![a, b, ..] expansion: Box<MaybeUninit<[T; N]>> -> Vec<T>"""
+    v = st.deref(args[0])
+    while isinstance(v, Tup):
+        nxt = [x for x in v.items if not isinstance(x, Uninit)]
+        if len(nxt) != 1: raise Unsupported(f'vec! box contents {v!r}')
+        v = nxt[0]
+    if not isinstance(v, VecV): raise Unsupported(f'vec! box contents {v!r}')
+    return ret(st, VecV(v.items, 'Vec'))
